@@ -11,6 +11,13 @@ try:
 except ImportError:
     pass
 
+# families built separately drop one JSON per property into harness/manifest_entries/
+_ed = os.path.join(VERIF, "harness", "manifest_entries")
+if os.path.isdir(_ed):
+    for _f in sorted(os.listdir(_ed)):
+        if _f.endswith(".json"):
+            CHECKS[_f[:-5]] = json.load(open(os.path.join(_ed, _f)))
+
 ALL = ["C%02d" % i for i in range(1, 21)]
 
 
